@@ -491,3 +491,62 @@ pub fn pick_promise(class: PromiseClass, j: usize, v: u64, rng: &mut impl RngCor
         },
     }
 }
+
+// ------------------------------------------------------------------------------------------------
+// Guard-page placement of untrusted input ("electric fence"): the bytes handed to the library end exactly at
+// (or start exactly after) an inaccessible page, so that a read or write outside the slice is a fault in every
+// build, not only under AddressSanitizer or Miri. Linux x86-64 / aarch64 constants.
+// ------------------------------------------------------------------------------------------------
+
+extern "C" {
+    fn mmap(addr: *mut u8, len: usize, prot: i32, flags: i32, fd: i32, off: i64) -> *mut u8;
+    fn mprotect(addr: *mut u8, len: usize, prot: i32) -> i32;
+    fn munmap(addr: *mut u8, len: usize) -> i32;
+}
+
+const PAGE: usize = 4096;
+
+pub struct Guarded {
+    base: *mut u8,
+    total: usize,
+    start: *mut u8,
+    len: usize,
+}
+
+impl Guarded {
+    /// `bytes` copied so that the slice is followed (`at_end`) or preceded (`!at_end`) by an inaccessible page
+    pub fn new(bytes: &[u8], at_end: bool) -> Option<Guarded> {
+        if cfg!(miri) {
+            return None;
+        }
+        let data_pages = (bytes.len() + PAGE - 1) / PAGE + 1;
+        let total = (data_pages + 2) * PAGE;
+        unsafe {
+            let base = mmap(std::ptr::null_mut(), total, 3, 0x22, -1, 0);
+            if base.is_null() || base as usize == usize::MAX {
+                return None;
+            }
+            // first and last page inaccessible
+            if mprotect(base, PAGE, 0) != 0 || mprotect(base.add(total - PAGE), PAGE, 0) != 0 {
+                munmap(base, total);
+                return None;
+            }
+            let start = if at_end { base.add(total - PAGE - bytes.len()) } else { base.add(PAGE) };
+            std::ptr::copy_nonoverlapping(bytes.as_ptr(), start, bytes.len());
+            Some(Guarded { base, total, start, len: bytes.len() })
+        }
+    }
+
+    pub fn slice(&self) -> &[u8] {
+        unsafe { std::slice::from_raw_parts(self.start, self.len) }
+    }
+}
+
+impl Drop for Guarded {
+    fn drop(&mut self) {
+        unsafe {
+            munmap(self.base, self.total);
+        }
+    }
+}
+
